@@ -77,6 +77,25 @@ class {name}(cohdl.Entity):
     return src
 
 
+def onreset_designs():
+    """registered on_reset actions: the C04 designs, plus an action that reads a signal under an ASYNCHRONOUS reset (the reset
+    branch is outside the clock-edge guard, so the sensitivity list must contain what it reads)"""
+    from adl import assign, pint, ref, bin_, if_, reset
+    from props import c04
+    ents = c04.onreset_designs("quick")
+    for e in ents:
+        e["name"] = e["name"].replace("E04R", "E06R")
+        e["family"] = "onreset:" + e["family"]
+    k = len(ents)
+    for low in (False, True):
+        body = [assign("next", "s", ref("d")), assign("next", "q", ref("s"))]
+        e = gen_seq.seq_entity(f"E06R_{k:03d}", body, reset("rst", active_low=low, is_async=True), "onreset:async_reads_signal")
+        e["ctxs"][0]["onreset"] = [assign("next", "o", pint(5)), if_(bin_("eq", ref("d"), pint(3)), [assign("next", "s", pint(1))])]
+        ents.append(e)
+        k += 1
+    return ents
+
+
 def run(tier):
     t0 = time.time()
     V = vlib.Verdict("C06")
@@ -107,6 +126,7 @@ def run(tier):
             ents.append(e)
         ents += gen_seq.seq_designs(tier, rng, "E06S", n_random=25 if tier == "quick" else 300, with_extras=True, opts=True)
         ents += gen_seq.coro_designs(tier, rng, "E06C", n_random=25 if tier == "quick" else 300, opts=True)
+        ents += onreset_designs()
         for e in ents:
             fam[e["name"]] = e["family"]
         obs = vlib.compile_modules(mods, scratch)
